@@ -178,7 +178,8 @@ fn run_caller_supplied<const NCH: usize>(chunks: &[[u8; L]; NCH], lens: &[usize;
 
 /// ASCII chunks (every byte < 0x80 is valid UTF-8 on its own): deeper sequence bound.
 #[kani::proof]
-#[kani::unwind(14)]
+#[cfg_attr(not(feature = "thorough"), kani::unwind(14))]
+#[cfg_attr(feature = "thorough", kani::unwind(20))]
 fn caller_supplied_ascii_chunks() {
     let chunks: [[u8; L]; K] = kani::any();
     let lens: [usize; K] = kani::any();
@@ -199,7 +200,8 @@ fn caller_supplied_ascii_chunks() {
 /// encoding of one symbolic `char` (1..4 bytes, every scalar value), truncated to the L-byte chunk
 /// bound (a char longer than L is replaced by the empty chunk).
 #[kani::proof]
-#[kani::unwind(14)]
+#[cfg_attr(not(feature = "thorough"), kani::unwind(14))]
+#[cfg_attr(feature = "thorough", kani::unwind(20))]
 fn caller_supplied_utf8_chunks() {
     let mut chunks: [[u8; L]; KU] = [[0; L]; KU];
     let mut lens: [usize; KU] = [0; KU];
